@@ -702,11 +702,16 @@ def t_boundaries(ctx):
                    'x' * 40000] + SPECIAL_CHARS +
         [c + 'abc' for c in SPECIAL_CHARS] +
         ['abc' + c for c in SPECIAL_CHARS] +
-        ['a' + c + 'b' for c in SPECIAL_CHARS] + ['\ufeff\ufeffx'],
+        ['a' + c + 'b' for c in SPECIAL_CHARS] + ['\ufeff\ufeffx'] +
+        # MiB scale: multi-byte characters across every 64 KiB / 1 MiB
+        # boundary, and the 3/4-byte length prefix boundary (2^21)
+        ['a' + '\u00e9' * 524288 + 'z', '\u20ac' * 349526,
+         'x' * (2 ** 21 - 1), 'x' * 2 ** 21, 'ab' + '\U0001f600' * 300000],
         'UUID': ['00000000-0000-0000-0000-000000000000',
                  'ffffffff-ffff-ffff-ffff-ffffffffffff',
                  '12345678-1234-5678-1234-567812345678'],
-        'VarIntPrefixedByteArray': [b'', b'\0', bytearray(b'\x01\xff'),
+        'VarIntPrefixedByteArray': [bytes(range(256)) * 4097,
+                                    b'', b'\0', bytearray(b'\x01\xff'),
                                     bytes(127), bytes(128),
                                     bytes(range(256)) * 64, bytes(16383),
                                     bytes(16384)],
